@@ -1,5 +1,7 @@
 import NmlVerif.Model.NetBuilder
+import NmlVerif.Model.ParserReuse
 import NmlVerif.Gen.Glue
+import NmlVerif.Gen.Handlers
 import NmlVerif.DrvCommon
 open Lean NmlVerif.Glue NmlVerif.NetBuilder Drv
 
@@ -53,28 +55,64 @@ def ilistJ (l : IList) : Json := Json.mkObj [("id", l.id), ("component", l.compo
 
 def projOrder : List String := ["projection", "electricalProjection", "continuousProjection"]
 
-def netJ (s : BState) (i : Nat) (n : Net) : Json :=
-  Json.mkObj [("id", n.id), ("notes", oJ n.notes), ("temperature", oJ n.temperature),
-    ("pops", Json.arr ((s.pops.filter (·.net == i)).map popJ).toArray),
-    ("projs", Json.arr ((projOrder.flatMap fun k => s.projs.filter (fun p => p.net == i && p.kind == k)).map projJ).toArray),
-    ("ilists", Json.arr ((s.ilists.filter (·.net == i)).map ilistJ).toArray)]
+def netJ (n : Net × List Pop × List Proj × List IList) : Json :=
+  Json.mkObj [("id", n.1.id), ("notes", oJ n.1.notes), ("temperature", oJ n.1.temperature),
+    ("pops", Json.arr (n.2.1.map popJ).toArray),
+    ("projs", Json.arr ((projOrder.flatMap fun k => n.2.2.1.filter (fun p => p.kind == k)).map projJ).toArray),
+    ("ilists", Json.arr (n.2.2.2.map ilistJ).toArray)]
 
 def insertSorted (x : String) : List String → List String
   | [] => [x]
   | y :: ys => if x ≤ y then x :: y :: ys else y :: insertSorted x ys
 def sortStrs (l : List String) : List String := l.foldr insertSorted []
 
+/-- what the builder's document shows (`NetBuilder.view`: the networks created since the last document start) -/
 def stateJ (s : BState) : Json :=
-  let hdr := match s.doc with
+  let v := view s
+  let hdr := match v.doc with
     | some (id, notes) => [("id", Json.str id), ("notes", oJ notes)]
     | none => [("id", Json.null), ("notes", Json.null)]
-  Json.mkObj (hdr ++ [("comps", strsJ (sortStrs s.comps)),
-    ("nets", Json.arr ((List.range s.nets.length).zip s.nets |>.map (fun p => netJ s p.1 p.2)).toArray),
-    ("err", oJ s.err)])
+  Json.mkObj (hdr ++ [("comps", strsJ (sortStrs v.comps)),
+    ("nets", Json.arr (v.nets.map netJ).toArray),
+    ("err", oJ v.err)])
 
 def cfgJ (c : Cfg) : Json := Json.arr #[c.pops, c.projs, c.ilists, c.projSyn, c.projType, c.projSynPre, c.wd]
 
 def tableCfg : Cfg := cfgOfTable NmlVerif.Gen.Glue.table NmlVerif.Gen.Glue.names
+def handlersCfg : Cfg := cfgOfAttrs NmlVerif.Gen.Handlers.builderAttrs NmlVerif.Gen.Handlers.tableIds
+
+def pickReset (j : Json) (gen : Bool) : Bool :=
+  match getStr j "reset" with
+  | "today" => false
+  | "repaired" => true
+  | _ => gen
+
+/-- the documents built one after the other on ONE builder: the view after each document's calls -/
+def reuseViews (reset : Bool) : List (List HCall) → BState → List Json
+  | [], _ => []
+  | d :: ds, s => let s' := brunR reset d s; stateJ s' :: reuseViews reset ds s'
+
+open NmlVerif.ParserReuse in
+def parseFile (j : Json) : H5File :=
+  { id := getStr j "id",
+    embedded := match getObj j "embedded" with
+      | .arr a => some (a.toList.filterMap fun x => match strList x with | [k, v] => some (k, v) | _ => none)
+      | _ => none,
+    network := getStr? j "network",
+    pops := (getArr j "pops").toList.filterMap fun x => match strList x with | [k, v] => some (k, v) | _ => none }
+
+open NmlVerif.ParserReuse in
+def resJ : Res → Json
+  | .doc id comps nets => Json.mkObj [("id", id), ("comps", strsJ (sortStrs comps)), ("nets", strsJ nets)]
+  | .attributeError => Json.mkObj [("err", "AttributeError")]
+
+open NmlVerif.ParserReuse in
+/-- one parser object, a history of files: per file what the handler gets and what the optimized parser returns -/
+def parserReuseRun (reset : Bool) : List H5File → PState → List Json
+  | [], _ => []
+  | f :: fs, st =>
+    Json.mkObj [("compObjs", Json.arr ((popCompObjs reset st f).map fun p => Json.arr #[Json.str p.1, oJ p.2]).toArray),
+      ("opt", resJ (getDocOpt reset st f))] :: parserReuseRun reset fs (parse reset st f)
 
 def handle (j : Json) : Json :=
   match getStr j "op" with
@@ -84,7 +122,72 @@ def handle (j : Json) : Json :=
     Json.mkObj [("vars", t.vars.length), ("entries", t.entries.length), ("wf", t.wf),
       ("violating", strsJ (t.violatingNames names)),
       ("written", strsJ ((t.written.eraseDups.filterMap fun v => names[v]?))),
-      ("cfg", cfgJ tableCfg)]
+      ("cfg", cfgJ tableCfg), ("handlersCfg", cfgJ handlersCfg),
+      ("handlersPrivate", handlersPrivate NmlVerif.Gen.Handlers.builderAttrs NmlVerif.Gen.Handlers.touch),
+      ("useIsModel", decide (NmlVerif.Gen.Handlers.use = modelUse NmlVerif.Gen.Handlers.builderResets)),
+      ("reuseViolating", strsJ (NmlVerif.Gen.Handlers.reuseTable.violatingNames NmlVerif.Gen.Handlers.names)),
+      ("builderResets", NmlVerif.Gen.Handlers.builderResets), ("parserResets", NmlVerif.Gen.Handlers.parserResets),
+      ("reachScanned", subsetStr NmlVerif.Gen.Glue.reach NmlVerif.Gen.Glue.scanned),
+      ("envEntries", strsJ (NmlVerif.Gen.Glue.envEntries.filterMap fun v => names[v]?))]
+  | "allMerges" =>
+    -- every merge of the two sequences (`Glue.merges`, proved to enumerate interleavings only): which of them leave
+    -- a builder with another document than its solo run, and what the documents are then
+    let ca := (getArr j "a").toList.filterMap parseCall
+    let cb := (getArr j "b").toList.filterMap parseCall
+    if ca.length != (getArr j "a").size || cb.length != (getArr j "b").size then Json.mkObj [("error", "unparsed call")] else
+    let cfg : Cfg := match getStr j "cfg" with
+      | "private" => Cfg.allPrivate
+      | "shared" => Cfg.allShared
+      | _ => tableCfg
+    let sa := stateJ (brun ca {})
+    let sb := stateJ (brun cb {})
+    let ms : List (List (Ev HCall HCall)) := merges ca cb
+    let diffs := ((List.range ms.length).zip ms).filterMap fun p =>
+      let es : List (Bool × HCall) := p.2.map fun e => match e with
+        | .a c => (true, c)
+        | .b c => (false, c)
+      let w := runWorld cfg es {}
+      let ja := stateJ w.a
+      let jb := stateJ w.b
+      if ja == sa && jb == sb then none else some (Json.arr #[Json.num p.1, ja, jb])
+    Json.mkObj [("n", ms.length), ("soloA", sa), ("soloB", sb), ("diffs", Json.arr diffs.toArray), ("cfg", cfgJ cfg)]
+  | "interleaveN" =>
+    -- any number of builders; `order` = builder index of every event (a merge of the sequences)
+    let seqs := (getArr j "seqs").toList.map fun a => match a with
+      | .arr xs => xs.toList.filterMap parseCall
+      | _ => []
+    let raw := (getArr j "seqs").toList.map fun a => match a with | .arr xs => xs.size | _ => 0
+    if seqs.map (·.length) != raw then Json.mkObj [("error", "unparsed call")] else
+    if handlersCfg != Cfg.allPrivate || tableCfg != Cfg.allPrivate then
+      Json.mkObj [("error", "shared tables: more than two builders are not modelled")] else
+    let order := natList (getObj j "order")
+    let rec events (fuel : Nat) (o : List Nat) (rest : Nat → List HCall) : List (Nat × HCall) :=
+      match fuel, o with
+      | 0, _ => []
+      | _, [] => []
+      | fuel + 1, i :: o' =>
+        match rest i with
+        | [] => events fuel o' rest
+        | c :: cs => (i, c) :: events fuel o' (updN rest i cs)
+    let es := events (order.length + 1) order (fun i => seqs.getD i [])
+    let S : SysN Unit BState HCall := ⟨fun _ s c => ((), bstep s c)⟩
+    let fin := (runN S es ((), fun _ => {})).2
+    Json.mkObj [("states", Json.arr ((List.range seqs.length).map fun i => stateJ (fin i)).toArray),
+      ("solos", Json.arr (seqs.map fun cs => stateJ (brun cs {})).toArray), ("events", es.length)]
+  | "reuse" =>
+    let docs := (getArr j "docs").toList.map fun a => match a with
+      | .arr xs => xs.toList.filterMap parseCall
+      | _ => []
+    let raw := (getArr j "docs").toList.map fun a => match a with | .arr xs => xs.size | _ => 0
+    if docs.map (·.length) != raw then Json.mkObj [("error", "unparsed call")] else
+    let reset := pickReset j NmlVerif.Gen.Handlers.builderResets
+    Json.mkObj [("views", Json.arr (reuseViews reset docs {}).toArray),
+      ("fresh", Json.arr (docs.map fun d => stateJ (brunR reset d {})).toArray), ("reset", reset)]
+  | "parserReuse" =>
+    let files := (getArr j "files").toList.map parseFile
+    let reset := pickReset j NmlVerif.Gen.Handlers.parserResets
+    Json.mkObj [("reused", Json.arr (parserReuseRun reset files {}).toArray),
+      ("fresh", Json.arr (files.flatMap fun f => parserReuseRun reset [f] {}).toArray), ("reset", reset)]
   | "interleave" =>
     let ca := (getArr j "a").toList.filterMap parseCall
     let cb := (getArr j "b").toList.filterMap parseCall
